@@ -332,17 +332,17 @@ end
 
 /-- the statement terminator rule shared by expression statements, RETURN and IMPORT:
 end of input or a following `}` also terminate; otherwise a `SoftSemi` is consumed -/
-def terminator (code : String) (s : PState) : PRes Unit :=
+def terminator (code : String) (labelled : Bool) (s : PState) : PRes Unit :=
   (isAtEnd s).bind fun e s =>
   if e then .ok () s else
   (check .rightBrace s).bind fun c s =>
   if c then .ok () s else
-  (consume .softSemi (fun t => err1 code [t.span]) s).bind fun _ s => .ok () s
+  (consume .softSemi (fun t => err1 code (if labelled then [t.span] else [])) s).bind fun _ s => .ok () s
 
 /-- src: `expression_statement` -/
 def expressionStatement (f : Nat) (s : PState) : PRes Stmt :=
   (expression f s).bind fun e s =>
-  (terminator "missing_eol" s).bind fun _ s => .ok (.expr e) s
+  (terminator "missing_eol" true s).bind fun _ s => .ok (.expr e) s
 
 /-- src: `return_statement` -/
 def returnStatement (f : Nat) (tok : Token) (s : PState) : PRes Stmt :=
@@ -355,7 +355,7 @@ def returnStatement (f : Nat) (tok : Token) (s : PState) : PRes Stmt :=
     (check .rightBrace s).bind fun c s =>
     if e || c then .ok (.ret tok none) s else
     (expression f s).bind fun v s =>
-    (terminator "return_semicolon" s).bind fun _ s => .ok (.ret tok (some v)) s
+    (terminator "return_semicolon" false s).bind fun _ s => .ok (.ret tok (some v)) s
 
 /-- src: the specific-function loop of `import_statement` -/
 def importNames : Nat → Token → List Token → PState → PRes (List Token)
@@ -388,7 +388,7 @@ def importStatement (f : Nat) (importTok : Token) (s : PState) : PRes Stmt :=
    | none => .ok none s).bind fun fromTok s =>
   (consume .mod_ (fun _ => err1 "expected_mod" []) s).bind fun modTok s =>
   (consume .stringLiteral (fun _ => err1 "expected_module_name" []) s).bind fun modName s =>
-  (terminator "import_semicolon" s).bind fun _ s =>
+  (terminator "import_semicolon" false s).bind fun _ s =>
   .ok (.import_ importTok modTok fromTok only modName) s
 
 /-- src: the parameter loop of `procedure` -/
@@ -401,6 +401,13 @@ def procParams : Nat → List (Str × Token) → PState → PRes (List (Str × T
     match m with
     | some _ => procParams f (params ++ [(t.lexeme, t)]) s
     | none => .ok (params ++ [(t.lexeme, t)]) s
+
+/-- src: `self.in_loop_scope = cache_loop_state` after the loop statement was parsed (or failed) -/
+def restoreLoop {α} (cache : Bool) : PRes α → PRes α
+  | .ok a s => .ok a { s with inLoop := cache }
+  | .err e s => .err e { s with inLoop := cache }
+  | .panic p => .panic p
+  | .fuel => .fuel
 
 mutual
 
@@ -448,21 +455,13 @@ def statement : Nat → PState → PRes Stmt
     | some t =>
       let cache := s.inLoop
       (check .until_ { s with inLoop := true }).bind fun c s =>
-      (match (if c then repeatUntil f t s else repeatTimes f t s) with
-       | .ok a s => .ok a { s with inLoop := cache }
-       | .err e s => .err e { s with inLoop := cache }
-       | .panic p => .panic p
-       | .fuel => .fuel)
+      restoreLoop cache (if c then repeatUntil f t s else repeatTimes f t s)
     | none =>
     (matchToken .for_ s).bind fun m s =>
     match m with
     | some t =>
       let cache := s.inLoop
-      (match forEach f t { s with inLoop := true } with
-       | .ok a s => .ok a { s with inLoop := cache }
-       | .err e s => .err e { s with inLoop := cache }
-       | .panic p => .panic p
-       | .fuel => .fuel)
+      restoreLoop cache (forEach f t { s with inLoop := true })
     | none =>
     (matchToken .leftBrace s).bind fun m s =>
     match m with
